@@ -7,7 +7,7 @@ use bump_scope::alloc::{AllocError, Allocator};
 use bump_scope::settings::{Bool, BumpSettings, MinimumAlignment, SupportedMinimumAlignment};
 use bump_scope::stats::AnyStats;
 use bump_scope::traits::{BumpAllocator, BumpAllocatorCore, BumpAllocatorScope, BumpAllocatorTyped};
-use bump_scope::{BaseAllocator, Bump, BumpScope, BumpScopeGuard, Checkpoint, WithoutDealloc, WithoutShrink};
+use bump_scope::{BaseAllocator, Bump, BumpScope, BumpScopeGuard, Checkpoint, MutBumpVec, MutBumpVecRev, WithoutDealloc, WithoutShrink};
 use std::alloc::Layout;
 use std::ptr::NonNull;
 
@@ -63,6 +63,7 @@ impl Wrap {
 pub trait ScopeOps {
     fn snapshot(&self) -> Snap;
     fn min_align(&self) -> usize;
+    fn is_up(&self) -> bool;
     fn is_claimed(&self) -> bool;
     fn allocate(&self, layout: Layout, zeroed: bool, via: &str) -> AllocRes;
     fn deallocate(&self, addr: usize, layout: Layout, wrap: Wrap, via: &str);
@@ -78,6 +79,65 @@ pub trait ScopeOps {
     fn with_aligned(&mut self, n: usize, scoped: bool, f: &mut dyn FnMut(&mut dyn ScopeOps));
     /// second claim on a claimed handle: must panic; returns the panic message if it did
     fn claim_again(&self) -> Option<String>;
+    /// creates an exclusive-borrow collection of elements of layout (esz, eal) with initial capacity c0
+    fn prep<'s>(&'s mut self, esz: usize, eal: usize, rev: bool, via: &str, c0: usize) -> Result<Box<dyn PrepOps + 's>, ()>;
+}
+
+/// An exclusive-borrow collection being filled (MutBumpVec / MutBumpVecRev, or the raw prepare/commit interface).
+pub trait PrepOps {
+    /// push one element whose bytes are all `tag`
+    fn push(&mut self, tag: u8) -> Result<(), ()>;
+    fn len(&self) -> usize;
+    fn cap(&self) -> usize;
+    fn snapshot(&self) -> Snap;
+    /// finalise: (address, length in elements, bytes of the final slice)
+    fn commit(self: Box<Self>) -> (usize, usize, Vec<u8>);
+}
+
+pub trait Elem: Copy + 'static {
+    fn make(tag: u8) -> Self;
+}
+impl Elem for u8 {
+    fn make(t: u8) -> Self {
+        t
+    }
+}
+impl Elem for [u8; 3] {
+    fn make(t: u8) -> Self {
+        [t; 3]
+    }
+}
+impl Elem for u16 {
+    fn make(t: u8) -> Self {
+        u16::from_ne_bytes([t; 2])
+    }
+}
+impl Elem for u32 {
+    fn make(t: u8) -> Self {
+        u32::from_ne_bytes([t; 4])
+    }
+}
+impl Elem for u64 {
+    fn make(t: u8) -> Self {
+        u64::from_ne_bytes([t; 8])
+    }
+}
+impl Elem for [u64; 3] {
+    fn make(t: u8) -> Self {
+        [u64::from_ne_bytes([t; 8]); 3]
+    }
+}
+#[derive(Clone, Copy)]
+#[repr(align(32))]
+pub struct A32(pub [u8; 32]);
+impl Elem for A32 {
+    fn make(t: u8) -> Self {
+        A32([t; 32])
+    }
+}
+
+fn slice_bytes<T>(ptr: *const T, len: usize) -> Vec<u8> {
+    unsafe { std::slice::from_raw_parts(ptr.cast::<u8>(), len * std::mem::size_of::<T>()).to_vec() }
 }
 
 pub trait GuardOps {
@@ -210,6 +270,9 @@ macro_rules! impl_scope_ops {
         fn min_align(&self) -> usize {
             MA
         }
+        fn is_up(&self) -> bool {
+            UP
+        }
         fn is_claimed(&self) -> bool {
             BumpAllocatorCore::is_claimed(self)
         }
@@ -304,6 +367,175 @@ where
             16 => go!(16),
             _ => panic!("bad alignment"),
         }
+    }
+
+    fn prep<'s>(&'s mut self, esz: usize, eal: usize, rev: bool, via: &str, c0: usize) -> Result<Box<dyn PrepOps + 's>, ()> {
+        if via == "dyn" {
+            let mut d = DynPrep { h: &*self, esz, eal, rev, lo: 0, hi: 0, len: 0, cap: 0, tags: Vec::new() };
+            if c0 > 0 {
+                d.grow_to(c0)?;
+            }
+            return Ok(Box::new(d));
+        }
+        macro_rules! mk {
+            ($t:ty) => {
+                if rev {
+                    let v = if c0 == 0 { MutBumpVecRev::<$t, _>::new_in(self) } else { MutBumpVecRev::<$t, _>::try_with_capacity_in(c0, self).map_err(|_| ())? };
+                    Ok(Box::new(v))
+                } else {
+                    let v = if c0 == 0 { MutBumpVec::<$t, _>::new_in(self) } else { MutBumpVec::<$t, _>::try_with_capacity_in(c0, self).map_err(|_| ())? };
+                    Ok(Box::new(v))
+                }
+            };
+        }
+        match (esz, eal) {
+            (1, 1) => mk!(u8),
+            (3, 1) => mk!([u8; 3]),
+            (2, 2) => mk!(u16),
+            (4, 4) => mk!(u32),
+            (8, 8) => mk!(u64),
+            (24, 8) => mk!([u64; 3]),
+            (32, 32) => mk!(A32),
+            _ => panic!("no element type for layout ({esz}, {eal})"),
+        }
+    }
+}
+
+impl<'s, 'a, T: Elem, A, const MA: usize, const UP: bool, const GA: bool, const DE: bool, const SH: bool, const MCS: usize> PrepOps
+    for MutBumpVec<T, &'s mut BumpScope<'a, A, BumpSettings<MA, UP, GA, true, DE, SH, MCS>>>
+where
+    A: Flavour + BaseAllocator<Bool<GA>>,
+    MinimumAlignment<MA>: SupportedMinimumAlignment,
+{
+    fn push(&mut self, tag: u8) -> Result<(), ()> {
+        self.try_push(T::make(tag)).map_err(|_| ())
+    }
+    fn len(&self) -> usize {
+        MutBumpVec::len(self)
+    }
+    fn cap(&self) -> usize {
+        self.capacity()
+    }
+    fn snapshot(&self) -> Snap {
+        let st = self.allocator_stats();
+        let (chunks, cur, rev1, stats) = typed_snap!(st);
+        let (any_chunks, any_cur, rev2, any) = chunk_snaps_any(st.into());
+        Snap { chunks, cur, stats, any, any_chunks, any_cur, rev_ok: rev1 && rev2, claimed: false }
+    }
+    fn commit(self: Box<Self>) -> (usize, usize, Vec<u8>) {
+        let b = (*self).into_boxed_slice();
+        let len = b.len();
+        let ptr = b.into_raw();
+        (v(ptr.cast::<u8>()), len, slice_bytes(ptr.cast::<T>().as_ptr(), len))
+    }
+}
+
+impl<'s, 'a, T: Elem, A, const MA: usize, const UP: bool, const GA: bool, const DE: bool, const SH: bool, const MCS: usize> PrepOps
+    for MutBumpVecRev<T, &'s mut BumpScope<'a, A, BumpSettings<MA, UP, GA, true, DE, SH, MCS>>>
+where
+    A: Flavour + BaseAllocator<Bool<GA>>,
+    MinimumAlignment<MA>: SupportedMinimumAlignment,
+{
+    fn push(&mut self, tag: u8) -> Result<(), ()> {
+        self.try_push(T::make(tag)).map_err(|_| ())
+    }
+    fn len(&self) -> usize {
+        MutBumpVecRev::len(self)
+    }
+    fn cap(&self) -> usize {
+        self.capacity()
+    }
+    fn snapshot(&self) -> Snap {
+        let st = self.allocator_stats();
+        let (chunks, cur, rev1, stats) = typed_snap!(st);
+        let (any_chunks, any_cur, rev2, any) = chunk_snaps_any(st.into());
+        Snap { chunks, cur, stats, any, any_chunks, any_cur, rev_ok: rev1 && rev2, claimed: false }
+    }
+    fn commit(self: Box<Self>) -> (usize, usize, Vec<u8>) {
+        let b = (*self).into_boxed_slice();
+        let len = b.len();
+        let ptr = b.into_raw();
+        (v(ptr.cast::<u8>()), len, slice_bytes(ptr.cast::<T>().as_ptr(), len))
+    }
+}
+
+/// The raw prepare / commit interface of `dyn BumpAllocatorCore`, driven like a vector by the harness.
+pub struct DynPrep<'s, B: ?Sized> {
+    h: &'s B,
+    esz: usize,
+    eal: usize,
+    rev: bool,
+    lo: usize,
+    hi: usize,
+    len: usize,
+    cap: usize,
+    tags: Vec<u8>,
+}
+
+impl<'s, B: ScopeOps + BumpAllocatorCore> DynPrep<'s, B> {
+    fn data_start(&self) -> usize {
+        // element slice anchored at the far end of the bump side (up: range start; down: range end); rev: the opposite
+        let up = self.h.is_up();
+        if !self.rev {
+            if up { self.lo } else { self.hi - self.cap * self.esz }
+        } else {
+            let end = if up { self.lo + self.cap * self.esz } else { self.hi };
+            end - self.len * self.esz
+        }
+    }
+    fn grow_to(&mut self, ncap: usize) -> Result<(), ()> {
+        let layout = Layout::from_size_align(ncap * self.esz, self.eal).map_err(|_| ())?;
+        let d: &dyn BumpAllocatorCore = self.h;
+        let old_start = self.data_start();
+        let r = if self.rev { d.prepare_allocation_rev(layout) } else { d.prepare_allocation(layout) }.map_err(|_| ())?;
+        let (lo, hi) = (v(r.start), v(r.end));
+        let old: Vec<u8> = unsafe { std::slice::from_raw_parts(region().real(old_start), self.len * self.esz).to_vec() };
+        self.lo = lo;
+        self.hi = hi;
+        self.cap = (hi - lo) / self.esz;
+        let new_start = self.data_start();
+        unsafe { std::ptr::copy_nonoverlapping(old.as_ptr(), region().real(new_start), old.len()) };
+        Ok(())
+    }
+}
+
+impl<'s, B: ScopeOps + BumpAllocatorCore> PrepOps for DynPrep<'s, B> {
+    fn push(&mut self, tag: u8) -> Result<(), ()> {
+        if self.len == self.cap {
+            let mnz = if self.esz == 1 { 8 } else if self.esz <= 1024 { 4 } else { 1 };
+            let ncap = (2 * self.cap).max(self.len + 1).max(mnz);
+            self.grow_to(ncap)?;
+        }
+        let at = if !self.rev { self.data_start() + self.len * self.esz } else { self.data_start() - self.esz };
+        unsafe { std::ptr::write_bytes(region().real(at), tag, self.esz) };
+        self.len += 1;
+        self.tags.push(tag);
+        Ok(())
+    }
+    fn len(&self) -> usize {
+        self.len
+    }
+    fn cap(&self) -> usize {
+        self.cap
+    }
+    fn snapshot(&self) -> Snap {
+        ScopeOps::snapshot(self.h)
+    }
+    fn commit(self: Box<Self>) -> (usize, usize, Vec<u8>) {
+        if self.cap == 0 {
+            return (0, 0, Vec::new());
+        }
+        let layout = Layout::from_size_align(self.len * self.esz, self.eal).unwrap();
+        let d: &dyn BumpAllocatorCore = self.h;
+        // allocate_prepared expects the data at the start of the range (non-rev) / at its end (rev)
+        let src = self.data_start();
+        let bytes: Vec<u8> = unsafe { std::slice::from_raw_parts(region().real(src), layout.size()).to_vec() };
+        let want = if !self.rev { self.lo } else { self.hi - layout.size() };
+        unsafe { std::ptr::copy(bytes.as_ptr(), region().real(want), bytes.len()) };
+        let r = p(self.lo)..p(self.hi);
+        let ptr = unsafe { if self.rev { d.allocate_prepared_rev(layout, r) } else { d.allocate_prepared(layout, r) } };
+        let out = unsafe { std::slice::from_raw_parts(ptr.as_ptr(), layout.size()).to_vec() };
+        (v(ptr), self.len, out)
     }
 }
 
